@@ -46,6 +46,15 @@ CHECKS = {
                      "every boundary request via seek/read and VMDK.read_sectors against a reference disk model.",
                 note="trusted: VMware VDF 1.1 / QEMU vmdk.c transcription in mc/builders/vmdk.py (round-trip decoder; decodes "
                      "the SE-sparse fixture), zlib, CPython, AlignedStream"),
+    "C01": dict(level=MC, ref="DESIGN.md section 4 C01",
+                text="Every QCOW2 image of the bounded space (cluster sizes, version 2/3 header forms, table orders and host "
+                     "offsets up to 2^55, backing file longer/equal/shorter/empty, external data file, windows at cluster 0 / "
+                     "across an L2 boundary / behind an empty L1 entry / at the end of the L1 coverage; every assignment of "
+                     "unallocated/zero/zero+offset/normal/compressed clusters and injective placement; extended-L2 bit windows "
+                     "3^6..3^10 per cluster and across two clusters) is read with every boundary request against a reference "
+                     "disk model.",
+                note="trusted: qcow2.txt transcription in mc/builders/qcow2.py (no fixture / qemu-img available; validated by an "
+                     "independent round-trip decoder), zlib raw deflate, CPython, AlignedStream; zstd not installed"),
 }
 
 PENDING_REASON = "check not built yet in this session (planned in DESIGN.md section 4); not claimed until it runs"
